@@ -321,10 +321,13 @@ def run_const_edges(chk, workdir):
 
 
 HOST_TEXTS = ['12', '0x10', '-0x10', '-3', '7/2', '(9-2)/2+5', '2*(3+4)', '(0-7)/2+5', '10+(1-8)/2', '010', '0010+1', '(1) << (31)', '2147483647 + 1', '65536 * 65536',
-              '1 << 30', '32768 * 65535']
+              '1 << 30', '32768 * 65535', '-0x80000000', '-0xFFFFFFFF', '-0x7FFFFFFF', '0x80000000', '0xFFFFFFFF', '-2147483648', '-0x8000000000000000',
+              '0x7FFFFFFFFFFFFFFF', '-(5)', '- 7', '+7', '- 0x80000000', '-(0x80000000)', '- 9223372036854775808', '-( 9223372036854775808 )', '-  0xFFFFFFFF']
 
 
-HOST_TEXTS_BIG = ['(1) << (31)', '2147483647 + 1', '65536 * 65536', '1 << 30', '32768 * 65535']
+HOST_TEXTS_BIG = ['(1) << (31)', '2147483647 + 1', '65536 * 65536', '1 << 30', '32768 * 65535', '-0x80000000', '-0xFFFFFFFF', '-0x7FFFFFFF', '0x80000000', '0xFFFFFFFF',
+                  '-2147483648', '-0x8000000000000000', '0x7FFFFFFFFFFFFFFF', '-(5)', '- 7', '- 0x80000000', '-(0x80000000)', '- 9223372036854775808',
+                  '-( 9223372036854775808 )', '-  0xFFFFFFFF']
 
 
 def classify_host_text(case, detail):
@@ -361,7 +364,7 @@ def run_isar_host_text(chk, workdir):
         chk.count(('isar-host-text', text), True)
         chk.bump('kind:isar-host-text')
         try:
-            res, _ = py_impl.run_prophyc(['--isar', '--python_out', workdir, '--cpp_full_out', workdir, src])
+            res, _ = py_impl.run_prophyc(['--isar', '--python_out', workdir, '--cpp_full_out', workdir, '--cpp_out', workdir, src])
         except prophyc.ProphycError:
             chk.bump('isar-host-text-rejected')
             continue
@@ -392,6 +395,16 @@ def run_isar_host_text(chk, workdir):
             seen['c++:constant'] = int(out[0])
             if small:
                 seen['c++:size'], seen['c++:byte-size'] = int(out[1]), int(out[2])
+        # the raw header (--cpp_out) holds the constant as well
+        prog = os.path.join(workdir, base + '_raw.cpp')
+        with open(prog, 'w') as f:
+            f.write('#include <stdio.h>\n#include "%s.pp.hpp"\nint main() { printf("%%lld\\n", (long long)KH); }\n' % base)
+        p = subprocess.run(['g++', '-std=c++11', '-I' + os.path.join(REPO, 'prophy_cpp', 'include'), '-I' + workdir, prog, '-o', exe + '_raw'],
+                           stdout=subprocess.PIPE, stderr=subprocess.STDOUT, timeout=300)
+        if p.returncode != 0:
+            seen['c++ raw:constant'] = 'does not compile: ' + p.stdout.decode(errors='replace')[:120]
+        else:
+            seen['c++ raw:constant'] = int(subprocess.run([exe + '_raw'], stdout=subprocess.PIPE, timeout=60).stdout.decode().split()[0])
         if len(set(map(str, seen.values()))) != 1:
             chk.property_violation(icase, {'what': 'one isar expression text denotes different integers in prophyc and its back-ends', 'values': seen},
                                    classify_host_text)
